@@ -2487,7 +2487,11 @@ func (m *SnapManager) finishTaskWithMaybeRestart(t *state.Task, status state.Sta
 
 	restartReason := daemonRestartReason(st, typ)
 	if restartReason == "" {
-		// no message -> no restart
+		// no message -> no restart, record the final status right away
+		// so that it is committed together with what the handler did
+		// to the state, and the handler is not run again if snapd is
+		// stopped before the task runner gets to do it
+		t.SetStatus(status)
 		return nil
 	}
 
